@@ -148,7 +148,7 @@ func (p *parser) alias() ast.Expression {
 			mostFitting = &checkAliasResult{matchedAliases[i], errs, funcInstantiation, structTypeInstantiation, args}
 		}
 
-		if args != nil && len(errs) == 0 {
+		if args != nil && !containsErrors(errs) { // warnings alone do not disqualify the alias
 			// log the errors that occured while parsing
 			apply(p.errorHandler, errs)
 			return callOrLiteralFromAlias(matchedAliases[i], args, funcInstantiation, structTypeInstantiation)
@@ -396,6 +396,11 @@ func (p *parser) checkAlias(mAlias ast.Alias, typeSensitive bool, start int, cac
 	return args, nil, nil, reported_errors
 }
 
+// reports wether errs contains anything worse than a warning
+func containsErrors(errs []ddperror.Error) bool {
+	return slices.ContainsFunc(errs, func(err ddperror.Error) bool { return err.Level == ddperror.LEVEL_ERROR })
+}
+
 // the maximum number of nested instantiations of generic functions
 const maxGenericInstantiationDepth = 64
 
@@ -506,7 +511,7 @@ func (p *parser) InstantiateGenericFunction(genericFunc *ast.FuncDecl, genericTy
 	decl.Body = declParser.blockStatement(declParser.scope()).(*ast.BlockStmt)
 	declParser.ensureReturnStatementPresent(&decl, decl.Body)
 
-	if errorCollector.DidError() {
+	if containsErrors(errorCollector.Errors) {
 		// remove the instantiation as we errored
 		genericFunc.Generic.Instantiations[genericModule] = slices.DeleteFunc(genericFunc.Generic.Instantiations[genericModule], func(f *ast.FuncDecl) bool { return f == &decl })
 	}
